@@ -335,10 +335,16 @@ def gen_fc(rng):
         if rng.integers(0, 3) == 0:
             o = ["h", "x", "s", "rz"][int(rng.integers(0, 4))]
             ops.append([o, [int(rng.integers(0, nq))], [_angle(rng)] if o == "rz" else []])
-    mode = int(rng.integers(0, 20))
-    width = int(rng.integers(1, nq + 1)) if mode else 0          # width 0: malformed (DeviceConstraints refuses)
-    kinds = [(True, True), (True, True), (True, False), (False, True), (False, False)][int(rng.integers(0, 5))]
-    max_gamma = [1, 2, 3, 9, 16, 27, 81, 256, 1024, 1e6, 0.5][int(rng.integers(0, 11))]
+    mode = int(rng.integers(0, 40))
+    if mode == 0:
+        width = 0                                                 # malformed (DeviceConstraints refuses)
+    elif mode < 32:
+        width = int(rng.integers(1, nq))                          # narrower than the circuit: cuts are needed
+    else:
+        width = int(rng.integers(1, nq + 1))
+    kinds = [(True, True), (True, True), (True, True), (True, False), (True, False), (False, True), (False, True),
+             (False, False)][int(rng.integers(0, 8))]
+    max_gamma = [1, 2, 3, 9, 16, 27, 81, 256, 1024, 1024, 1e4, 1e6, 1e6, 1e9, 3.5, 0.5][int(rng.integers(0, 16))]
     mb = [None, 0, 1, 2, 5, 20, 100, 10000][int(rng.integers(0, 8))]
     seed = None if rng.integers(0, 12) == 0 else int(rng.integers(0, 2 ** 31))
     return dict(kind="fc", nq=nq, ops=ops, width=width, gate_lo=kinds[0], wire_lo=kinds[1], max_gamma=max_gamma,
